@@ -1,6 +1,11 @@
 package ircserver
 
-import "gopkg.in/sorcix/irc.v2"
+import (
+	"sort"
+
+	"github.com/robustirc/robustirc/internal/robust"
+	"gopkg.in/sorcix/irc.v2"
+)
 
 func init() {
 	Commands["server_QUIT"] = &ircCommand{
@@ -14,10 +19,18 @@ func (i *IRCServer) cmdServerQuit(s *Session, reply *Replyctx, msg *irc.Message)
 		i.deleteSessionLocked(s, reply.msgid)
 		// For services, we also need to delete all sessions that share the
 		// same .Id, but have a different .Reply.
-		for id, session := range i.sessions {
+		// Iterate in a well-defined order: the QUIT messages must be
+		// identical (including their order) on all nodes.
+		var replies []uint64
+		for id := range i.sessions {
 			if id.Id != s.Id.Id || id.Reply == 0 {
 				continue
 			}
+			replies = append(replies, id.Reply)
+		}
+		sort.Slice(replies, func(a, b int) bool { return replies[a] < replies[b] })
+		for _, r := range replies {
+			session := i.sessions[robust.Id{Id: s.Id.Id, Reply: r}]
 			i.sendCommonChannels(session, reply, &irc.Message{
 				Prefix:  &session.ircPrefix,
 				Command: irc.QUIT,
